@@ -229,6 +229,10 @@ def run_case(case, ctx):
     kw = dict(full_output=True)
     if case['r'] is not None:
         kw.update(r=case['r'], step_ratio=case['step_ratio'], num_extrap=case['num_extrap'])
+    elif (case['n'] + int(abs(case['z0'][0]) * 1000)) % 5 == 0 and not case.get('max_iter'):
+        # every default but the growth ratio, given as an integer (Python int or numpy integer): 2 and 3 are ratios like 2.0 and 3.0
+        kw['step_ratio'] = [2, 3, np.int64(2), np.int32(3)][(case['n'] + int(abs(case['z0'][0]) * 100)) % 4]
+        ctx.count('integer_typed_step_ratio_with_default_radius')
     if case.get('max_iter'):
         kw['max_iter'] = case['max_iter']
         ctx.count('iteration_cap_raised_explicitly')
